@@ -19,6 +19,11 @@ chk('C01', 'exploration',
     'All byte strings up to length 3 (quick) / 4 (thorough) over a 33-symbol alphabet with one representative per lexer byte class, all token strings up to length 3 over a 117-lexeme alphabet (4 over a 42-lexeme core, thorough), 69 parser-state skeleton holes x all token strings up to length 2 (3 core, thorough) also truncated there, and every token-boundary prefix / single-token deletion / single-token substitution of the example corpus are lexed and parsed as VCL, as snippet and by ParseVCLOrSnippet. Oracle: no panic, no fuel exhaustion (non-termination), result is a tree or a *ParseError, every token and error token is located inside the input and (for verbatim token kinds) the input at that position reads the token text.',
     'Trusts: Go toolchain; the fuel instrumentation (function-entry and loop-body ticks injected by mc/cmd/instr through go build -overlay); inputs outside the alphabets and longer than the bound are not covered.')
 
+chk('C02', 'exploration',
+    'bounded-exhaustive enumeration of grammar derivations printed by an independent printer; oracle parse(print(t)) == t',
+    'Every expression tree up to depth 2 over all operators (every outer/left/right operator triple; thorough: every atom at every leaf, depth-3 spines), printed with minimal and with full parentheses from the documented precedence table in 12 expression contexts and 3 layouts, a literal table (hex/exponent/INT64 boundary/escapes/long strings) and every statement and declaration derivation within 2 (quick) / 3 (thorough) deviations of its default form is parsed by the real parser and compared structurally with the intended tree (identifiers, operators, literal values, order, grouping).',
+    'Trusts: the independent printer and intended-tree generator (mc/gen), written from docs/parser.md and the property text; unparenthesised chains of one associative operator are compared flattened.')
+
 NOT_YET = {i: 'check not built yet in this session (design in DESIGN.md §4); will be claimed once its command exists' for i in ids if i not in CHECKS}
 
 m = {
